@@ -33,7 +33,7 @@ LEVEL_TEXT = (
     "C03_scheduled_worker_fixed_at_command_time and C03_served_object_independent_of_later_session (the object is resolved under the "
     "issuing login; what is served does not depend on the session of the moment of serving). Round 4: C03_command_line_decoded_strictly "
     "(parse_command decodes without errors=: nothing is dropped from the bytes before the credential comparison); credentials are "
-    "exercised as raw bytes (finding F21: str.rstrip() strips trailing white space of every kind before the comparison)."
+    "exercised as raw bytes (finding F22: str.rstrip() strips trailing white space of every kind before the comparison)."
 )
 LEVEL_NOTE = (
     "Trusted: Coq kernel, py2v (footprint extraction is syntactic: connection.<attr> writes, path_io calls, worker spawns), extraction, "
